@@ -1182,7 +1182,10 @@ class FortranFile:
                 return ""
         else:
             if FRegex.FREE_OPENMP.match(line) is None:
-                line = line.split("!")[0]
+                # A `!` inside a character literal does not start a comment
+                comm_ind = strip_strings(line, maintain_len=True).find("!")
+                if comm_ind >= 0:
+                    line = line[:comm_ind]
         return line
 
     def find_word_in_code_line(
